@@ -167,6 +167,33 @@ def type_sweep():
                     b[0] = zero
                     if _nonzero(a, zero):
                         bad.append('RawArray(%r) objects share storage' % (code,))
+    # the initial value of an array may come from any sequence: what counts is its *elements*, whatever
+    # the container (lists, tuples, ranges, array.array of the same or of another element type of the
+    # same or another width, ctypes arrays, bytes, bytearray, memoryview)
+    import array as _array
+    seqs = [('list', [1, 2, 3]), ('tuple', (1, 2, 3)), ('range', range(1, 4)),
+            ('array-q', _array.array('q', [1, 2, 3])), ('array-i', _array.array('i', [1, 2, 3])),
+            ('array-d', _array.array('d', [1.0, 2.0, 3.0])), ('array-f', _array.array('f', [1.0, 2.0, 3.0])),
+            ('array-H', _array.array('H', [1, 2, 3])), ('array-B', _array.array('B', [1, 2, 3])),
+            ('c_longlong[3]', (ctypes.c_longlong * 3)(1, 2, 3)), ('c_int[3]', (ctypes.c_int * 3)(1, 2, 3)),
+            ('c_double[3]', (ctypes.c_double * 3)(1.0, 2.0, 3.0)), ('c_float[3]', (ctypes.c_float * 3)(1.0, 2.0, 3.0)),
+            ('bytes', bytes([1, 2, 3])), ('bytearray', bytearray([1, 2, 3])),
+            ('memoryview', memoryview(bytes([1, 2, 3])))]
+    for code in ('b', 'B', 'h', 'H', 'i', 'I', 'l', 'L', 'f', 'd', ctypes.c_longlong, ctypes.c_ulonglong):
+        for name, init in seqs:
+            n += 1
+            try:
+                want = list(sc.typecode_to_type.get(code, code) and
+                            (sc.typecode_to_type.get(code, code) * 3)(*list(init)))
+            except TypeError:
+                continue              # ctypes itself refuses these elements for this type (e.g. floats for ints)
+            try:
+                got = list(sc.RawArray(code, init))
+            except Exception as exc:      # noqa
+                bad.append('RawArray(%r, %s) raised %s' % (code, name, type(exc).__name__))
+                continue
+            if got != want:
+                bad.append('RawArray(%r, %s) holds %r, not %r' % (code, name, got[:3], want[:3]))
     # composite types with a partial initialiser: what the initialiser does not name is zero,
     # whatever the recycled storage held before
     class Pt(ctypes.Structure):
